@@ -241,8 +241,53 @@ def run_selftests(ctx, repo=None):
                                     "reported": [f"{o.rule}: {o.key[:120]}" for o in hits[:3]]})
         if not ok:
             ctx.error(f"self-test: must-fire variant `{label}` ({rel}) is not reported by {rule} - the rule lost its sensitivity")
+    # ---- kept seeded changes (independent sub-agents) that this property's check is recorded to catch: must still be caught
+    from .udiff import apply_to_texts
+    import json
+    seed_root = os.path.join(os.path.dirname(os.path.dirname(os.path.abspath(__file__))), "seeded")
+    report["seeded"] = []
+    s_applied = s_fired = 0
+    root = repo or REPO
+    for sid in sorted(os.listdir(seed_root)) if os.path.isdir(seed_root) else []:
+        d = os.path.join(seed_root, sid)
+        try:
+            meta = json.load(open(os.path.join(d, "meta.json")))
+        except Exception:
+            continue
+        rec = (meta.get("static_checks") or {}).get(prop)
+        if not rec or rec.get("exit") != 1:
+            continue
+        got = None
+        for pf in ("patch.diff", "patch_rebased.diff"):
+            pp = os.path.join(d, pf)
+            if not os.path.exists(pp):
+                continue
+            try:
+                got = apply_to_texts(open(pp).read(), lambda rel: open(os.path.join(root, rel)).read())
+                break
+            except (ValueError, OSError):
+                got = None
+        if got is None:
+            report["seeded"].append({"seed": sid, "result": "not-applicable (tree moved on)"})
+            continue
+        try:
+            for rel, txt in got.items():
+                compile(txt, rel, "exec")
+        except SyntaxError as e:
+            report["seeded"].append({"seed": sid, "result": "not-compilable", "detail": str(e)})
+            continue
+        s_applied += 1
+        code, c2 = run_property(prop, "quick", repo, overrides=got, quiet=True, write=False, reuse=ctx.model)
+        hits = sorted({o.rule for o in c2.obs if o.verdict == "violated" and (o.rule, o.key) not in base_viol})
+        s_fired += bool(hits)
+        report["seeded"].append({"seed": sid, "caught": bool(hits), "rules": hits, "recorded_rules": rec.get("rules")})
+        if not hits:
+            ctx.error(f"self-test: kept seeded change `{sid}` was recorded as caught by {prop} {rec.get('rules')} but is no longer reported")
+    report["seeded_applied"] = s_applied
+    report["seeded_caught"] = s_fired
     report["must_fire_applied"] = applied
     report["must_fire_fired"] = fired
     ctx.selftest = report
     ctx.extra["selftest_summary"] = (f"{len(report['silence'])} silence variant families over {len(consulted)} files; "
-                                     f"{fired}/{applied} must-fire variants reported")
+                                     f"{fired}/{applied} must-fire variants reported; "
+                                     f"{s_fired}/{s_applied} kept seeded changes still caught")
